@@ -498,7 +498,7 @@ func replayBundled(c *lib.Ctx, scratch string, in bundledInput) error {
 		e.compare(ls, in, in.Instance, urls)
 	default:
 		// scan-level findings (admission of generated layouts, tables): re-evaluated by a full run
-		_, err := runBundled(c, scratch+"_r", rand.New(rand.NewSource(c.Seed)))
+		_, err := runBundled(c, filepath.Join(scratch, "r"), rand.New(rand.NewSource(c.Seed)))
 		return err
 	}
 	for _, f := range c.Res.OracleFailures {
